@@ -6,6 +6,7 @@ CONSTANTS
   CtxTerm = TRUE
   DupTerm = TRUE
   ParentKill = TRUE
+  ClearFirst = FALSE
 INVARIANT TypeOK
 PROPERTY Live_Reaped
 CHECK_DEADLOCK FALSE
